@@ -259,6 +259,19 @@ func (s *Session) frameObligations(fr *Frame, c *Contract, out *State, short str
 		if cur.S == init.S {
 			continue
 		}
+		if strings.HasPrefix(n, "X:") {
+			ok := false
+			for _, l := range allowed[n] {
+				if l.whole {
+					ok = true
+				}
+			}
+			if !ok && !strings.HasPrefix(n, "X:txn:") && !strings.HasSuffix(n, "0") {
+				conj = append(conj, Eq(cur, init))
+				srcs = append(srcs, n)
+			}
+			continue
+		}
 		if strings.HasPrefix(n, "G:") {
 			// globals: single cell at index 0
 			ok := false
